@@ -320,10 +320,14 @@ READONLY = ['q {v} betti -', 'q {v} betti [ 0 2 1 ]', 'q {v} snf 1', 'q {v} snf 
 def small_world(rnd, g_lines=None):
     """two complexes a, u with attributes (some missing), in-contract"""
     lines = []
+    shape = rnd.random()
     for v, pool in (('a', 'int5'), ('u', 'str5')):
-        g = gen.Gen(rnd, pool=pool, bad=0.05, snap=False, var=v,
-                    ops=dict(point=3, faces=3, basis=4, delete=1, subdiv=0.3))
-        for _ in range(rnd.randint(4, 10)):
+        if shape < 0.12:          # degenerate: points only, or nothing at all
+            ops = dict(point=1); steps = rnd.randint(0, 3)
+        else:
+            ops = dict(point=3, faces=3, basis=4, delete=1, subdiv=0.3); steps = rnd.randint(4, 10)
+        g = gen.Gen(rnd, pool=pool, bad=0.05, snap=False, var=v, ops=ops)
+        for _ in range(steps):
             g.step()
         lines += g.lines
         for s in g.c().simplicesOfOrder(0) if g.c().maxOrder() >= 0 else []:
@@ -518,8 +522,9 @@ class C15(Prop):
         n = 100 if tier == 'quick' else 2500
         for i in range(n):
             pool = ('int', 'mix', 'str', 'tup')[i % 4]
-            g = gen.Gen(rnd, pool=pool, bad=0.05, snap=False, ops=dict(point=3, faces=4, basis=4, delete=1, subdiv=0.5))
-            for _ in range(rnd.randint(4, 12)):
+            ops = dict(point=3, faces=4, basis=4, delete=1, subdiv=0.5) if i % 5 else dict(point=1)
+            g = gen.Gen(rnd, pool=pool, bad=0.05, snap=False, ops=ops)
+            for _ in range(rnd.randint(4, 12) if i % 5 else rnd.randint(1, 4)):
                 g.step()
             lines = list(g.lines)
             c = g.c(); ss = c.simplices()
@@ -553,18 +558,24 @@ class C15(Prop):
                 elif r < 0.9 and ss:
                     req = 'relabel1 a %s %s' % (tok(rnd.choice(ss)), tok(rnd.choice(free)) if free else 'i999')
                 else:
-                    # relabelDisjointFrom a second complex that shares some names (also at higher orders)
+                    # relabelDisjointFrom a second complex that shares some names, at any order
+                    # (also orders above our own maximum)
                     other = ['new o']
-                    shared = rnd.sample(ss, min(len(ss), rnd.randint(0, 3))) if ss else []
-                    onames = list(dict.fromkeys([tok(x) for x in shared] + [tok(x) for x in free[:2]]))
-                    for t in onames[:3]:
-                        other.append('add o [ ] %s -' % t)
-                    if len(onames) >= 3 and len(shared) >= 1:
-                        pass
-                    if len(onames) >= 2 and ss:
-                        hi = rnd.choice(ss)
-                        if tok(hi) not in onames[:3]:
-                            other.append('add o [ %s %s ] %s -' % (onames[0], onames[1], tok(hi)))
+                    pool_names = [tok(x) for x in ss] + [tok(x) for x in free[:4]]
+                    rnd.shuffle(pool_names)
+                    pool_names = list(dict.fromkeys(pool_names))
+                    k = min(len(pool_names), rnd.choice([1, 2, 3, 4, 5, 7]))
+                    nms = pool_names[:k]
+                    if k >= 7:
+                        p0, p1, p2, e0, e1, e2, t0 = nms[:7]
+                        other += ['add o [ ] %s -' % x for x in (p0, p1, p2)]
+                        other += ['add o [ %s %s ] %s -' % (p0, p1, e0), 'add o [ %s %s ] %s -' % (p0, p2, e1), 'add o [ %s %s ] %s -' % (p1, p2, e2)]
+                        other += ['add o [ %s %s %s ] %s -' % (e0, e1, e2, t0)]
+                    elif k >= 3:
+                        other += ['add o [ ] %s -' % x for x in nms[:2]] + ['add o [ %s %s ] %s -' % (nms[0], nms[1], nms[2])]
+                        other += ['add o [ ] %s -' % x for x in nms[3:]]
+                    else:
+                        other += ['add o [ ] %s -' % x for x in nms]
                     lines += other
                     req = 'relabeldisj a o'
                 lines += ['check c15-pre a ' + req, req, 'check c15-post a', 'snap a']
@@ -589,14 +600,16 @@ class C16(Prop):
             nmb = dict(nm)
             r = rnd.random()
             S = [s for s in cb]
-            if S and r < 0.25:
+            if S and r < 0.4:
                 # single-name perturbation: one simplex of b takes the name another vertex set has in a
-                s = rnd.choice(S); others = [t for t in ca if len(t) == len(s) and t != s]
+                both = [s for s in cb if s in ca and len(s) > 1]
+                s = rnd.choice(both) if both and rnd.random() < 0.7 else rnd.choice(S)
+                others = [t for t in ca if len(t) == len(s) and t != s]
                 if others:
                     t = rnd.choice(others)
                     key = lambda u: u if len(u) > 1 else u[0]
                     nmb[key(s)] = nm.get(key(t), t[0] + 1 if len(t) == 1 else None)
-            elif S and r < 0.4:
+            elif S and r < 0.55:
                 s = rnd.choice(S)
                 key = s if len(s) > 1 else s[0]
                 nmb[key] = 'PERT' if pi % 2 else 4242          # single-basis perturbation: same set, new name
@@ -727,7 +740,7 @@ class C19(Prop):
                     if h is not None:
                         lines.append('setattr c i%d sheight i%d' % (p + 1, h))
                 for d in ((0, 2) if None in hs else (0,)):
-                    lines += ['q c integrate sheight %d' % d, 'check c19 c sheight %d' % d]
+                    lines += ['check save c', 'q c integrate sheight %d' % d, 'check unchanged c', 'check c19 c sheight %d' % d]
                     cnt += 1
             lines += ['q a euler']
             scripts.append(lines)
@@ -741,7 +754,7 @@ class C19(Prop):
                 if rnd.random() < 0.8:
                     lines.append('setattr a i%d sheight i%d' % (p + 1, rnd.randint(0, 3)))
             d = rnd.choice([0, 1, 3])
-            lines += ['q a integrate sheight %d' % d, 'check c19 a sheight %d' % d, 'q a euler']
+            lines += ['check save a', 'q a integrate sheight %d' % d, 'check unchanged a', 'check c19 a sheight %d' % d, 'q a euler']
             scripts.append(lines)
         return scripts, {'exhaustive': tier != 'quick', 'integrations': cnt,
                          'generator': 'complexes on <= %d points x height assignments 0..3 / missing (defaults 0 and 2); random complexes on 5-7 points with defaults 0, 1, 3' % N}
